@@ -73,6 +73,13 @@ def pool(rng, scratch):
     items.append(("regref-a", {"text": H + "MeasureX | 0\nZgate(2*q0) | 1\n"}))
     items.append(("regref-b", {"text": H + "MeasureX | 0\nXgate(2*q0) | 2\nDgate(0.3, phi=2*q0) | 3\n"}))
     items.append(("regref-c", {"text": H + "MeasureX | 0\nMeasureP | 1\nBSgate(q0 + q1, 2*q0) | [2, 3]\n"}))
+    # scripts whose evaluation touches process-wide numeric settings: divisions, poles (log(0) is -inf, not an error), overflow
+    items.append(("numeric-division", {"text": H + "float half = 1 / 2\nOp(half / 4, 3 / 0.5) | 0\n"}))
+    items.append(("numeric-pole-log", {"text": H + "Op(log(0)) | 0\n"}))
+    items.append(("numeric-pole-arctanh", {"text": H + "Op(arctanh(1)) | 0\n"}))
+    items.append(("numeric-pole-pow", {"text": H + "Op(0.0 ** -1) | 0\n"}))
+    items.append(("numeric-overflow", {"text": H + "Op(exp(1000), 1e200 * 1e200) | 0\n"}))
+    items.append(("numeric-invalid", {"text": H + "Op(sqrt(-1), arcsin(2)) | 0\n"}))
     items.append(("op-named-like-include", {"text": H + "Sub(x=1) | [0, 1]\nsub(a=1) | [2, 3]\n"}))
     for i in range(10):
         g = Gen(rng, allow_params=(i % 2 == 0))
@@ -114,6 +121,10 @@ def run(tier, seed):
                     hists.append([a, b])
         # always: all ordered pairs (and some triples) among the entries that involve files / includes / names of includes
         special = [it for it in items if it[0].startswith(("include-", "relative-include-", "op-named-like", "regref-"))]
+        num = [it for it in items if it[0].startswith("numeric-")] + [it for it in items if it[0] in ("binds-n", "cast-error")]
+        for a in num:
+            for b in num:
+                hists.append([a, b])
         for a in special:
             for b in special:
                 hists.append([a, b])
